@@ -13,8 +13,8 @@ open World Ark.Props.C01World
 
 namespace World
 
-/-- the pre-validation of the typed paths passes when every relation names a relation component
-    of the mapper and a zero or alive target -/
+/-- the pre-validation (of every path) passes when every relation names a relation component
+    among the added / the mapper's components and a zero or alive target -/
 theorem preCheck_ok_of_valid (p : Path) (ids : List Comp) (w : World) : ∀ (rels : List RelID),
     (∀ (r : RelID), r ∈ rels → (r.target.isZero = true ∨ w.alive r.target = true) ∧
       w.isRelComp r.comp = true ∧ (Mask.ofList ids).get r.comp = true) →
@@ -32,7 +32,10 @@ theorem preCheck_ok_of_valid (p : Path) (ids : List Comp) (w : World) : ∀ (rel
       · simp [ha]
     have ih' := ih (fun r' hr' => hv r' (List.mem_cons_of_mem _ hr'))
     cases p with
-    | unsafe_ => rfl
+    | unsafe_ =>
+      simp only [preCheck, preCheckTyped] at ih' ⊢
+      simp only [M.forM', bind, M.bind, hok, checkRelationComponent, hvc, if_true, M.assert, hvm]
+      exact ih'
     | map1 =>
       simp only [preCheck, preCheckMap] at ih' ⊢
       simp only [M.forM', bind, M.bind, hok, checkRelationComponent, hvc, if_true]
@@ -114,7 +117,7 @@ theorem RelInv.lookup_total {w : World} (hR : RelInv w) {mask : Mask}
         rw [hall'] at hnum
         have hr0 : r0 ∈ L := by rw [hall']; exact List.mem_cons_self
         obtain ⟨ic, hic⟩ := Archetype.colIdx_some_of_mem_comps (hcols r0 hr0)
-        apply getTable_rel_total hrel hnum hic
+        apply getTable_rel_total hrel hnum hic (by rw [← hall']; exact hndL)
         intro ts hf t htm
         have hic' : (w1.arch a).comps[ic]? = some r0.comp := Archetype.colIdx_get hic
         have hicr : (w1.arch a).isRel.getD ic false = true := by
@@ -293,7 +296,7 @@ theorem opAdd_rel_total (run : ProbeRunner) (p : Path) {w : World} {fl : List Na
     (hval : ∀ (r : RelID), r ∈ rels → r.target.isZero = true ∨ w.alive r.target = true) :
     ∃ (w' : World), opAdd run p e ids vals rels w = .ok () w' := by
   have hk256 : w.kinds.length ≤ 256 := Nat.le_trans h.kindsLe.1 h.kindsLe.2
-  have hpre : preCheck p ids rels w = .ok () w := by
+  have hpre : preCheck (p.addCheck ids) ids rels w = .ok () w := by
     apply preCheck_ok_of_valid
     intro r hr
     refine ⟨hval r hr, hrc r hr, ?_⟩
@@ -336,7 +339,7 @@ theorem opSetRelations_total (run : ProbeRunner) (p : Path) {w : World} {fl : Li
     (hval : ∀ (r : RelID), r ∈ rels → r.target.isZero = true ∨ w.alive r.target = true)
     (hreg : ∀ (r : RelID), r ∈ rels → w.isRelComp r.comp = true ∧ r.comp < 256) :
     ∃ (w' : World), opSetRelations run p e (rels.map (·.comp)) rels w = .ok () w' := by
-  have hpre : preCheck p (rels.map (·.comp)) rels w = .ok () w := by
+  have hpre : preCheck p.setRelCheck (rels.map (·.comp)) rels w = .ok () w := by
     apply preCheck_ok_of_valid
     intro r hr
     refine ⟨hval r hr, (hreg r hr).1, ?_⟩
@@ -392,7 +395,7 @@ theorem opAdd_rel_path_indep (run : ProbeRunner) (p q : Path) {w : World} {fl : 
     (hval : ∀ (r : RelID), r ∈ rels → r.target.isZero = true ∨ w.alive r.target = true) :
     opAdd run p e ids vals rels w = opAdd run q e ids vals rels w := by
   have hk256 : w.kinds.length ≤ 256 := Nat.le_trans h.kindsLe.1 h.kindsLe.2
-  have hpre : ∀ (p' : Path), preCheck p' ids rels w = .ok () w := by
+  have hpre : ∀ (p' : Path), preCheck (p'.addCheck ids) ids rels w = .ok () w := by
     intro p'
     apply preCheck_ok_of_valid
     intro r hr
@@ -434,7 +437,7 @@ theorem opSetRelations_path_indep (run : ProbeRunner) (p q : Path) (e : Ent) {w 
     (hreg : ∀ (r : RelID), r ∈ rels → w.isRelComp r.comp = true ∧ r.comp < 256) :
     opSetRelations run p e (rels.map (·.comp)) rels w =
       opSetRelations run q e (rels.map (·.comp)) rels w := by
-  have hpre : ∀ (p' : Path), preCheck p' (rels.map (·.comp)) rels w = .ok () w := by
+  have hpre : ∀ (p' : Path), preCheck p'.setRelCheck (rels.map (·.comp)) rels w = .ok () w := by
     intro p'
     apply preCheck_ok_of_valid
     intro r hr
